@@ -19,6 +19,20 @@ FIXED = [
  ("fix: a capture or subroutine inside a loop with a minimum count", ["C02","C14"], "`find all at least 1 ('a' = x)` and `@/(a)+/` rejected with \"name clash\""),
  ("fix: regex capture groups are numbered per command", ["C13"], "two commands `find all @/(a)(b|d)\\1?/` in one source: second rejected with \"identifier '_1' is not defined\""),
  ("fix: nested regex groups are numbered", ["C14"], "`@/((a)b)/` bound _1='a', _2='ab' (numbered by closing parenthesis)"),
+ ("fix: an unterminated regex literal", ["C08"], "`find all @/abc` never returned: the lexer looped at end of input while allocating"),
+ ("fix: `--` at the end of the input", ["C08"], "`find all 'a' --` panicked \"Unknown final state\""),
+ ("fix: input ending right after a backslash", ["C08"], "`'a\\` and `!` at end of input panicked \"Unknown final state\""),
+ ("fix: malformed or unsupported regex literals", ["C08","C14"], "`@/\\/`, `@/a{/`, `@/(?=a)/`, `@/[\\d]/` panicked; `@/a)b/` silently meant `a`"),
+ ("fix: a regex quantifier like", ["C08"], "`find all @/]{1a/` never returned: the regex parser restarted at index 0 forever"),
+ ("fix: process expressions that are empty", ["C08"], "`set f to transform return end`, `if ( 3`, `return 1 +` panicked with index out of range or produced a nil node"),
+ ("fix: `named` not followed by a name", ["C08"], "`find all at least 1 'a' named` crashed the code generator (nil loop, nil error)"),
+ ("fix: comments inside process expressions", ["C15"], "`return match --(c)-- == 'a'` rejected: comments were not skipped inside expressions"),
+ ("fix: whitespace or a comment before a comma", ["C15"], "`in 'a', 'b' to 'd' , whitespace` rejected: blank before a comma after the second item"),
+ ("fix: `( )` and `{ } = name`", ["C15"], "`find all ( )` rejected while `find all ()` is accepted"),
+ ("fix: an incomplete", ["C16"], "`'\\xZZ'` denoted 'xZ' (a character was lost after an incomplete \\x escape)"),
+ ("fix: a backslash before a whitespace character", ["C16"], "`'\\ '` rejected as an unending string"),
+ ("fix: `break`/`continue` after an inner loop", ["C12"], "`loop loop break end break end` rejected"),
+ ("fix: division and modulo by zero", ["C09","C12"], "`return 10 / match` on non-numeric text panicked with integer divide by zero"),
 ]
 
 FINDINGS = [
